@@ -26,6 +26,16 @@ TIMEOUT = {"quick": 15000, "thorough": 60000}
 KNOWN = []
 CLAUSES = ("post.wf", "post.tree", "side.left", "side.right", "post.lvl", "hole.data", "safety.raise", "unsupported",
            "pre.frag", "decreases", "cover", "own.fresh")
+TRUSTED = ["z3 5.1.0", "pyvc symbolic executor and Python semantics of DESIGN section 4",
+           "vc/reader.py: the assumed SQL grammar of each dialect (operator levels from the SQLite / SQL-99 / Trino documentation)",
+           "vc/automata.py for the data-hole language inclusions; CPython's regex parser and Unicode tables"]
+ASSUME = ["reader soundness (DESIGN 5.3): in an operator-precedence grammar a complete sub-expression whose exposed edge operators "
+          "bind at least as tightly as its position requires is parsed as one subtree equal to its own parse",
+          "the table alias comes from the application and contains no double quote (alias_ok)",
+          "per-character homomorphism lemma for chains of one-character str.replace",
+          "typed grammar: built-in functions take no boolean arguments; string/date/collection parameters are not arithmetic expressions",
+          "children of a node are of kinds the dialect has handlers for (SQL-expressible fragment); other kinds are C12's subject",
+          "infer_type is used through its mechanically derived summary (C18)"]
 
 
 def families(facts):
@@ -205,6 +215,40 @@ def _rooted_at(term, a):
     return t.eq(a)
 
 
+def tainted_terms(c, path, node, kind, arg_consts):
+    """String-content terms (String.val, Identifier.name/namespace, Attribute.attr, Geography.val) that occur in
+    the path condition other than under a type tester."""
+    U, PV = c["U"], c["PV"]
+    srcs = []
+    fld = U.field
+    cand = []
+    if kind in ("String", "Geography"):
+        cand.append(fld(kind, "val", node))
+    if kind == "Identifier":
+        cand += [fld("Identifier", "name", node), fld("Identifier", "namespace", node)]
+    if kind == "Attribute":
+        cand.append(fld("Attribute", "attr", node))
+    for a in arg_consts or []:
+        cand += [fld("String", "val", a), fld("Identifier", "name", a)]
+    ids = {z3.simplify(PV.s(t)).get_id(): str(t) for t in cand}
+    hits = []
+
+    def walk(t, seen):
+        if t.get_id() in seen:
+            return
+        seen.add(t.get_id())
+        if t.get_id() in ids:
+            hits.append(ids[t.get_id()])
+            return
+        if z3.is_app(t):
+            for i in range(t.num_args()):
+                walk(t.arg(i), seen)
+    seen = set()
+    for cnd in path.pc:
+        walk(z3.simplify(cnd), seen)
+    return sorted(set(hits))
+
+
 def known_ids():
     return {f["id"] for f in KNOWN}
 
@@ -225,6 +269,10 @@ def known_skip(dkey, what, clause, info):
         return True
     if "C09-unicode-digits" in ids and what in ("Integer", "Float") and clause == "hole.data":
         return True
+    if "C09-sqlite-duration" in ids and dkey == "sqlite" and what == "Duration":
+        return True
+    if "C09-athena-hassubset-repeats-argument" in ids and dkey == "athena" and fn == "hassubset" and clause == "post.tree":
+        return True
     return False
 
 
@@ -242,7 +290,7 @@ def run_one(c, facts, dkey, is_call, what, timeout, prop, clauses, extra_pre=Non
     E, U, PV = c["E"], c["U"], c["PV"]
     cls, dialect = Q.VISITORS[dkey]
     Q.install_visit_contract(c, dkey)
-    mk_self, alias = Q.make_self(c, dkey)
+    mk_self, alias = Q.make_self(c, dkey, symbolic_alias=(not is_call and what == "Identifier"))
     cf = facts.classes[cls]
     holder = {}
     if is_call:
@@ -265,6 +313,11 @@ def run_one(c, facts, dkey, is_call, what, timeout, prop, clauses, extra_pre=Non
                 # typed grammar: no built-in takes a boolean argument
                 path.assume(z3.Not(z3.Or(U.is_node(a, ["Compare", "BoolOp"]),
                                          z3.And(U.is_kind("UnaryOp", a), U.is_kind("Not", U.field("UnaryOp", "op", a))))))
+            numeric_pos = {"substring": (1, 2), "round": (0,), "floor": (0,), "ceiling": (0,)}.get(fn, ())
+            for i, a in enumerate(arg_consts):
+                if i not in numeric_pos:
+                    # string / date / collection parameters: arithmetic is not of such a type
+                    path.assume(z3.Not(U.is_node(a, ["BinOp", "UnaryOp"])))
             for w in known_call_regions(c, dkey, fn, arg_consts):
                 path.assume(z3.Not(w))
             if extra_pre:
@@ -341,6 +394,10 @@ def run_one(c, facts, dkey, is_call, what, timeout, prop, clauses, extra_pre=Non
                         "reason": outcome[1], "source": src, "path": idx})
             continue
         c["regroups"] = path.ghost.get("regroups", {})
+        if outcome[0] in ("return", "raise"):
+            # 2-safety (C07): which path is taken must not depend on the *contents* of strings / names of the filter
+            tainted = tainted_terms(c, path, node, kind if not is_call else "Call", arg_consts if is_call else None)
+            recs.append(("rel.path", z3.BoolVal(not tainted), {"depends_on": "; ".join(tainted)[:200]}))
         for clause, goal, info in recs:
             if goal is None:
                 out.append({"name": f"{base}:{clause}", "clause": clause, "status": "undecided", "seconds": 0.0,
@@ -374,7 +431,9 @@ def replay_spec(facts, r):
 
 
 def evidence(facts, results):
-    return {"trusted_base": [], "assumptions": [], "explanation": ""}
+    return {"trusted_base": TRUSTED, "assumptions": ASSUME,
+            "explanation": "per handler per path: template read by the dialect's grammar; well-formedness, mirrored tree, operand "
+                           "strength side conditions, promised strength, data holes; 3 dialects; calls per function and arity."}
 
 
 if __name__ == "__main__":
